@@ -539,6 +539,33 @@ func checkC15(c *Ctx) {
 			c.ok("C15.params", construct, fmt.Sprintf("%v", got), p.fnPos(f))
 		}
 	}
+	// one-shot functions: the state comes from the constructor of the same function (the domain-separation
+	// byte and output length are the constructor's), and from no other constructor or one-shot function
+	for fn, ctor := range map[string]string{"Sum224": "New224", "Sum256": "New256", "Sum384": "New384", "Sum512": "New512", "ShakeSum128": "NewShake128", "ShakeSum256": "NewShake256"} {
+		f := p.Func("internal/sha3", "", fn)
+		construct := "internal/sha3." + fn + " hashes with the state of " + ctor
+		if f == nil {
+			c.undecided("C15.params", construct, "function not found", "")
+			continue
+		}
+		var ctors []string
+		for _, b := range f.Blocks {
+			for _, in := range b.Instrs {
+				if ci, ok := in.(ssa.CallInstruction); ok {
+					n := normName(p.staticCalleeName(ci.Common()))
+					if strings.HasPrefix(n, "internal/sha3.New") || strings.HasPrefix(n, "internal/sha3.Sum") || strings.HasPrefix(n, "internal/sha3.ShakeSum") {
+						ctors = append(ctors, strings.TrimPrefix(n, "internal/sha3."))
+					}
+				}
+			}
+		}
+		sort.Strings(ctors)
+		if len(ctors) == 1 && ctors[0] == ctor {
+			c.ok("C15.params", construct, "the only constructor called", p.fnPos(f))
+		} else {
+			c.bad("C15.params", construct, fmt.Sprintf("constructors / one-shot functions called: %v: the digest is that of another function of the family (other domain-separation byte, rate or output length)", ctors), p.fnPos(f))
+		}
+	}
 	c.tableConstInt(p, "C15.params", "xof/k12", "chunkSize", 8192)
 	// K12 domain bytes: the constants passed to NewTurboShake128 / SwitchDS in xof/k12
 	{
